@@ -494,6 +494,22 @@ func c11Run(c *core.Ctx) {
 			}
 		}
 		c.Add("long_histories", reps)
+		// the full cycle: 2^24 + 1000 increments without a setter in between (thorough: two cycles), observed after every
+		// step — whatever an implementation counts per increment has its limit no earlier than here
+		if c.Shard == 1%c.NShards {
+			n := 1<<24 + 1000
+			if c.Thorough() {
+				n = 2<<24 + 1000
+			}
+			for _, s := range []uint32{0x123456, 0xFFFFFF} {
+				in := c11Repeat{State: s, Period: []c11Step{{Op: "AddOne"}}, Times: n}
+				if c.Begin("repeat", "Count", in) {
+					c11RepeatCase(c, in)
+					transitions += int64(n)
+				}
+				c.Tick()
+			}
+		}
 	}
 	c.Add("states", states)
 	c.Add("transitions", transitions)
